@@ -118,7 +118,12 @@ func pruneEmpty(dst, src proto.Message, mask fmutils.NestedMask) {
 			return true
 		}
 		if !srcPr.Has(d) {
-			dstPr.Clear(d)
+			if len(fieldMask) > 0 && d.Message() != nil && d.Cardinality() != protoreflect.Repeated {
+				// the mask names fields inside this message only; the rest of it is not being written
+				fieldMask.Prune(v.Message().Interface())
+			} else {
+				dstPr.Clear(d)
+			}
 			return true
 		}
 		if d.Kind() == protoreflect.MessageKind && d.Cardinality() != protoreflect.Repeated {
